@@ -721,7 +721,8 @@ func (w *World) stopFeed(l Line) string {
 //////// compound calls with scripted callbacks
 
 // A callback script is a ';'-separated list of steps, one per invocation (the last one repeats):
-//   set:<body>  del  cancel  err  retry  exp:<n>:<body>
+//
+//	set:<body>  del  cancel  err  retry  exp:<n>:<body>
 func (w *World) execUpdate(c *rosmar.Collection, key string, exp uint32, l Line) string {
 	steps := strings.Split(l.str("cb", "cancel"), ";")
 	i := 0
